@@ -37,11 +37,22 @@ def log(*a):
     print(*a, file=sys.stderr, flush=True)
 
 
-def sh(cmd, cwd=None, timeout=1800, env=None, quiet=False):
+def _big_stack():
+    import resource
+    try:
+        resource.setrlimit(resource.RLIMIT_STACK, (resource.RLIM_INFINITY, resource.RLIM_INFINITY))
+    except Exception:
+        try:
+            resource.setrlimit(resource.RLIMIT_STACK, (1 << 30, resource.getrlimit(resource.RLIMIT_STACK)[1]))
+        except Exception:
+            pass
+
+
+def sh(cmd, cwd=None, timeout=1800, env=None, quiet=False, big_stack=False):
     """run, return (rc, combined output)"""
     try:
         p = subprocess.run(cmd, cwd=cwd, env=env or ENV, stdout=subprocess.PIPE, stderr=subprocess.STDOUT,
-                           timeout=timeout, shell=isinstance(cmd, str))
+                           timeout=timeout, shell=isinstance(cmd, str), preexec_fn=_big_stack if big_stack else None)
         out = p.stdout.decode("utf-8", "replace")
         return p.returncode, out
     except subprocess.TimeoutExpired as e:
@@ -180,6 +191,23 @@ def assumptions(pid):
         open(cache, "w").write(out)
         os.utime(cache, None)
     return open(cache).read()
+
+
+def coqchk(pid, report):
+    """thorough tier: re-check Properties/<pid>.vo and everything it depends on with the independent checker;
+    the result is cached per content hash of the .vo files of the development"""
+    h = hashlib.sha1()
+    for f in sorted(glob.glob(os.path.join(COQ, "theories", "**", "*.vo"), recursive=True)):
+        h.update(f.encode()); h.update(open(f, "rb").read())
+    d = os.path.join(WORK, "coqchk"); os.makedirs(d, exist_ok=True)
+    cache = os.path.join(d, "%s-%s.txt" % (pid, h.hexdigest()[:16]))
+    if not os.path.exists(cache):
+        rc, out = sh("coqchk -silent -o -Q theories Twig Twig.Properties.%s" % pid, cwd=COQ, timeout=3000)
+        open(cache, "w").write("rc=%d\n%s" % (rc, out))
+    txt = open(cache).read()
+    ok = txt.startswith("rc=0") and "* Axioms: <none>" in txt and "type-in-type: <none>" in txt and \
+        "unsafe (co)fixpoints: <none>" in txt and "positivity is assumed: <none>" in txt
+    return ok, txt[-1200:]
 
 
 def split_assumptions(txt):
